@@ -14,8 +14,9 @@ import (
 
 // Finding is one rule violation found in a trace.
 type Finding struct {
-	Key string
-	Msg string
+	Key   string
+	Msg   string
+	Phase int // victim process (0-based) in whose trace the witness lies
 }
 
 type inode struct {
@@ -140,7 +141,7 @@ func (c *Checker) publishClass(dst string) string {
 }
 
 func (c *Checker) violate(key, f string, a ...any) {
-	c.Findings = append(c.Findings, Finding{key, fmt.Sprintf(f, a...)})
+	c.Findings = append(c.Findings, Finding{key, fmt.Sprintf(f, a...), c.phase})
 }
 
 func (c *Checker) modify(p string) {
@@ -402,8 +403,10 @@ func (c *Checker) rename(src, dst string, ev Event) {
 		default:
 			c.Counts["R1_ok"]++
 		}
+		// follow-mode outputs are named follow* by the scenarios: their publisher is the follower
+		// goroutine, whose success reports are the follow-entered / follow-applied lines
 		owner := "main"
-		if c.follower && (class == "restore-output" || class == "txid-sidecar") {
+		if (class == "restore-output" || class == "txid-sidecar") && strings.HasPrefix(filepath.Base(dst), "follow") {
 			owner = "follower"
 		}
 		c.pending = append(c.pending, &pendingRename{dst: dst, class: class, dir: filepath.Dir(dst), owner: owner, line: ev.Line, phase: c.phase})
